@@ -411,6 +411,19 @@ let mi_spec en elems =
   let base = Printf.sprintf "MI %s %s %s %s %s %s" full full full suffix suffix full in
   if en then base else Printf.sprintf "%s X %s %d %s %s" base full n full (if n = 0 then "." else List.nth items (n / 2))
 
+(* ---- element types constructible from their own container: the visits are still the range's elements ---- *)
+let et_valid ty kind mode n =
+  List.mem ty ["any"; "val"; "ilt"] &&
+  (match kind with "vec" | "list" -> mode = "l" || mode = "r" | "il" -> mode = "r" && n >= 1 && n <= 4 | _ -> false)
+let et_model en ty kind mode elems =
+  if not (et_valid ty kind mode (List.length elems)) then "BADCASE" else
+  if en then out_str (fun vs -> Printf.sprintf "ET %d %s" (List.length vs) (dotted (vis_e_plain vs))) (enumerate_rvalue elems)
+  else out_str (fun vs -> Printf.sprintf "ET %d %s" (List.length vs) (dotted (vis_r_plain vs))) (reverse_rvalue elems)
+let et_oracle en ty kind mode elems obs =
+  if not (et_valid ty kind mode (List.length elems)) then obs = "BADCASE" else
+  obs = Printf.sprintf "ET %d %s" (List.length elems)
+          (dotted (if en then vis_e_plain (spec_enumerate elems) else vis_r_plain (List.rev elems)))
+
 (* ------------------------------------------------------------------ dispatch *)
 let model (w : string list) : string =
   try
@@ -442,6 +455,7 @@ let model (w : string list) : string =
         (match x with VPtr _ -> Printf.sprintf "A 1 %s %s" (hex_of_n (mhash x)) (hex_of_n (mhash x)) | _ -> "BADCASE")
     | [("en" | "rv") as a; kind; mode; elems] -> iter_model (a = "en") kind mode (ints_of_wire elems)
     | ["mi"; ("en" | "rv") as a; kind; mode; elems] -> if mi_valid kind mode then mi_line (a = "en") (ints_of_wire elems) else "BADCASE"
+    | ["et"; ("en" | "rv") as a; ty; kind; mode; elems] -> et_model (a = "en") ty kind mode (ints_of_wire elems)
     | ["re"; sc; kind; mode; elems] -> reuse_model sc kind mode (ints_of_wire elems)
     | ["ow"; sc; ("en" | "rv") as a; kind; e1; e2] -> ow_model sc (a = "en") kind (ints_of_wire e1) (ints_of_wire e2)
     | "mc" :: sc :: kind :: mode :: (([_; _] | [_; _; _]) as es) -> mc_model sc kind mode (List.map ints_of_wire es)
@@ -479,6 +493,7 @@ let oracle (w : string list) (obs : string) : bool =
   | ["a"; "SQ"; _], ["A"; e; hx; hy] -> e = "1" && hx = hy
   | [("en" | "rv") as a; kind; mode; elems], _ -> iter_oracle (a = "en") kind mode (ints_of_wire elems) obs
   | ["mi"; ("en" | "rv") as a; kind; mode; elems], _ -> if mi_valid kind mode then obs = mi_spec (a = "en") (ints_of_wire elems) else obs = "BADCASE"
+  | ["et"; ("en" | "rv") as a; ty; kind; mode; elems], _ -> et_oracle (a = "en") ty kind mode (ints_of_wire elems) obs
   | ["re"; sc; kind; mode; elems], _ -> reuse_oracle sc kind mode (ints_of_wire elems) obs
   | ["ow"; sc; ("en" | "rv") as a; kind; e1; e2], _ -> ow_oracle sc (a = "en") kind (ints_of_wire e1) (ints_of_wire e2) obs
   | "mc" :: sc :: kind :: mode :: (([_; _] | [_; _; _]) as es), _ -> mc_oracle sc kind mode (List.map ints_of_wire es) obs
